@@ -21,7 +21,7 @@ From CSS Require Import Base.PyList Gen.Prelude Gen.Compositions Count.Compositi
 (* objects <-> parse trees (shared with C08 and C12): separable delta = this line, section "parse trees" and its
    examples / Print Assumptions *)
 From CSS Require Import Count.SampleModel Count.SampleUniform Count.ParseTrees Count.ParseTreesProofs Count.ParseTreesForms.
-From CSS Require Count.ObjectsRun Count.ParseTreesRun Count.ParseTreesRunSpec.
+From CSS Require Count.ObjectsRun Count.ParseTreesRun Count.ParseTreesRunSpec Count.ParseTreesDecidersProofs.
 Import ListNotations.
 Open Scope Z_scope.
 
@@ -472,6 +472,51 @@ End DerivedForms.
 Theorem C07_run_extends : forall inp,
   Forall ParseTreesRunSpec.old_kind (Sx.sx_list (Sx.sx_nth inp 1)) -> ParseTreesRun.run_c07p inp = ObjectsRun.run_c07 inp.
 Proof. exact ParseTreesRunSpec.run_c07p_extends. Qed.
+
+(* ---------------------------------------------------------------- decidable hypotheses, decided on the case
+   The productivity certificate `rank` (productive_reads, productive_levels) and `closed` of C07_generate_exact /
+   C07_generate_perm / C07_count_* / C07_objects_are_parse_trees are decided by the extracted run on the descriptors of
+   every compared case (Count/ParseTreesRun.v run_c07d appends [rank_ok, closed_ok, depth] to the answers;
+   Count/ParseTreesDeciders.v rankb / closedb).  A verdict 1 gives the hypothesis for the specification the run decodes,
+   spec_of (map dec_rule descs), for ALL sizes.  rankb is a sufficient criterion (the same-size class graph - union
+   children, product children whose siblings' minima add up to 0 - is acyclic and the minima are >= 0), not a
+   necessary one.  The bijection contracts (`contracts`) are NOT decidable from the descriptors and stay hypotheses. *)
+Theorem C07_rank_decided : forall descs,
+  Sx.sx_nth (ParseTreesRun.rank_verdict descs) 0 = Sx.I 1 ->
+  exists rank, ParseTreesDecidersProofs.productive_reads (ObjectsRun.spec_of (map ObjectsRun.dec_rule descs)) rank /\
+               ParseTreesDecidersProofs.productive_levels rank.
+Proof. exact ParseTreesRunSpec.rank_verdict_rank. Qed.
+
+Theorem C07_closed_decided : forall descs,
+  Sx.sx_nth (ParseTreesRun.rank_verdict descs) 1 = Sx.I 1 ->
+  ParseTreesDecidersProofs.closed (ObjectsRun.spec_of (map ObjectsRun.dec_rule descs)).
+Proof. exact ParseTreesRunSpec.rank_verdict_closed. Qed.
+
+(* C07_generate_exact with the two decidable hypotheses replaced by the verdict the run prints *)
+Theorem C07_generate_exact_decided : forall (size : Z -> Z) (In_cls : nat -> Z -> Prop) (par : nat -> Z -> params) descs,
+  let spec := ObjectsRun.spec_of (map ObjectsRun.dec_rule descs) in
+  Sx.sx_nth (ParseTreesRun.rank_verdict descs) 0 = Sx.I 1 ->
+  Sx.sx_nth (ParseTreesRun.rank_verdict descs) 1 = Sx.I 1 ->
+  (forall c r, spec c = Some r -> rule_ok size In_cls par c r) ->
+  forall c n, spec c <> None -> 0 <= n ->
+  exists f0, forall f, (f0 <= f)%nat ->
+    forall s, Inv size In_cls par s -> forall p,
+    exists s' l, generate_objects_of_size spec f s c n p = Some (s', l) /\
+                 Inv size In_cls par s' /\ NoDup l /\ forall o, In o l <-> isobj size In_cls par c n p o.
+Proof.
+  intros size In_cls par descs spec Hr Hc Hk c n.
+  destruct (C07_rank_decided descs Hr) as (rank & H1 & H2).
+  exact (C07_generate_exact size In_cls par spec rank Hk (C07_closed_decided descs Hc) H1 H2 c n).
+Qed.
+
+(* the verdicts on  0 -> 1 + 2, 2 -> 3 x 0, 1 and 3 atoms  (certificate found, depth 2) and on  0 -> 0  (none) *)
+Example C07_rank_decided_nonvacuous :
+  ParseTreesRun.rank_verdict
+    [Sx.L [Sx.I 0; Sx.L [Sx.I 1; Sx.I 2]; Sx.L []; Sx.L []]; Sx.L [Sx.I 3; Sx.I 0; Sx.I 7];
+     Sx.L [Sx.I 1; Sx.L [Sx.I 3; Sx.I 0]; Sx.L [Sx.I 1; Sx.I 0]; Sx.L [Sx.I 1; Sx.I (-1)]; Sx.L []; Sx.L []];
+     Sx.L [Sx.I 3; Sx.I 1; Sx.I 8]] = Sx.L [Sx.I 1; Sx.I 1; Sx.I 2] /\
+  ParseTreesRun.rank_verdict [Sx.L [Sx.I 0; Sx.L [Sx.I 0]; Sx.L []; Sx.L []]] = Sx.L [Sx.I 0; Sx.I 1; Sx.I 0].
+Proof. split; vm_compute; reflexivity. Qed.
 
 (* non-vacuity: the specification  0 -> 1 + 2,  2 -> 3 x 0,  1 and 3 atoms  (words over one letter,
    Count/ObjectsExample.v) satisfies every hypothesis of the end-to-end theorem - contracts of a union and
@@ -1521,5 +1566,8 @@ Print Assumptions C07_reverse_equivalence_contract.
 Print Assumptions C07_reverse_equivalence_contract_flag.
 Print Assumptions C07_reverse_single_contract.
 Print Assumptions C07_run_extends.
+Print Assumptions C07_rank_decided.
+Print Assumptions C07_closed_decided.
+Print Assumptions C07_generate_exact_decided.
 Print Assumptions C07_path_contract.
 Print Assumptions C07_nonvacuous.
